@@ -327,6 +327,21 @@ class Interp:
                 return fn(*args, **kwargs)
             except (ValueError, IndexError, TypeError) as e:
                 raise PyRaise(e)
+        recv0 = getattr(fn, "__self__", None)
+        if isinstance(recv0, slice) and has_symbolic(recv0) or (isinstance(recv0, slice) and has_symbolic(args)):
+            if fn.__name__ == "indices" and len(args) == 1:
+                # slice.indices(n) = CPython's PySlice_GetIndicesEx: (start, stop, step) with start + length * step consistent with the clamped bounds
+                from . import arrays as A_
+                start, step, length = A_.adjust_slice(recv0, args[0])
+                n_ = A_.T(args[0])
+                if step > 0:
+                    stop = z3.IntVal(0) if False else (n_ if recv0.stop is None else z3.If(A_.T(recv0.stop) < 0, A_.Max(A_.T(recv0.stop) + n_, 0), A_.Min(A_.T(recv0.stop), n_)))
+                else:
+                    stop = z3.IntVal(-1) if recv0.stop is None else z3.If(A_.T(recv0.stop) < 0, A_.Max(A_.T(recv0.stop) + n_, -1), A_.Min(A_.T(recv0.stop), n_ - 1))
+                return (wrap(start), wrap(stop), step)
+            raise Unsupported(f"method {fn.__name__} of a slice with symbolic members")
+        if recv0 is not None and not isinstance(recv0, (dict, list, tuple, type)) and not callable(recv0) and has_symbolic(recv0) and not getattr(recv0, "_pyvc_ok", False):
+            raise Unsupported(f"native method {getattr(fn, '__qualname__', fn)} of an object with symbolic members")
         if has_symbolic(args) or has_symbolic(kwargs):
             recv = getattr(fn, "__self__", None)
             if not (recv is not None and isinstance(recv, (dict, list)) and fn.__name__ in _CONTAINER_METHODS and not has_symbolic_shallow(args)):
